@@ -9,6 +9,7 @@ import (
 	"github.com/idena-network/idena-go/blockchain/types"
 	"github.com/idena-network/idena-go/blockchain/validation"
 	"github.com/idena-network/idena-go/common"
+	"github.com/idena-network/idena-go/core/state"
 	"github.com/idena-network/idena-go/crypto"
 	"pgregory.net/rapid"
 
@@ -58,9 +59,39 @@ func get(m map[common.Address]*big.Int, a common.Address) *big.Int {
 // exceptions), decided differentially: the same proposer builds, on two copies
 // of the same state at the same instant, a block with the transaction and one
 // without it.
+// every type, with the types whose validity hangs on a relationship between signer and target (the statement's named
+// exceptions) drawn more often
+var weightedTypes = func() []types.TxType {
+	var res []types.TxType
+	for typ := types.TxType(0); typ <= 0x16; typ++ {
+		if _, ok := sim.TxTypeNames[typ]; ok {
+			res = append(res, typ)
+		}
+	}
+	for i := 0; i < 4; i++ {
+		res = append(res, types.KillInviteeTx, types.KillDelegatorTx)
+	}
+	return append(res, types.KillTx, types.UndelegateTx, types.CallContractTx, types.TerminateContractTx)
+}()
+
 func TestOnlySignerPays(t *testing.T) {
 	rapid.Check(t, func(t *rapid.T) {
 		opt := sim.Options{MinActors: 4, MaxActors: 10, Replicas: 1, MaxReplicas: 4, Steps: 30, MaxTxPerStep: 5}
+		opt.Params = func(p *sim.Params) {
+			// some invited / candidate addresses that own stake and have no inviter link (genesis allocations; on a chain:
+			// the inviter terminated itself), and validated identities without a pool: the targets a stranger's
+			// termination transaction must not be able to touch
+			for i := range p.States {
+				switch {
+				case i > 0 && i%4 == 1:
+					p.States[i] = rapid.SampledFrom([]state.IdentityState{state.Candidate, state.Invite}).Draw(t, "looseInvitee")
+					p.Stakes[i] = sim.Dna(int64(5 + i))
+				case i > 0 && i%4 == 2 && p.States[i] == state.Undefined:
+					p.States[i] = state.Verified
+					p.Stakes[i] = sim.Dna(int64(20 + i))
+				}
+			}
+		}
 		opt.BetweenBlocks = func(h *sim.History) {
 			w := h.W
 			el := w.Eligible()
@@ -69,8 +100,11 @@ func TestOnlySignerPays(t *testing.T) {
 			}
 			p := el[0]
 			for k := rapid.IntRange(0, 2).Draw(t, "experiments"); k > 0; k-- {
-				tx, info := w.GenTx(t, p, nil)
+				tx, info := w.GenTx(t, p, weightedTypes)
 				evid.Eval()
+				if tx.Type == types.KillInviteeTx || tx.Type == types.KillDelegatorTx {
+					evid.Count("attempt." + sim.TxTypeNames[tx.Type] + "." + info.Rel)
+				}
 				// sometimes the transaction under test is followed by further transactions in the same block
 				// (one VM and one check state are shared by the whole block)
 				var followers []*types.Transaction
